@@ -8,6 +8,7 @@ import (
 	"go/constant"
 	goparser "go/parser"
 	"go/types"
+	"sort"
 	"strings"
 )
 
@@ -676,11 +677,29 @@ func (env *Env) call(x *Expr) Val {
 			return intVal(g)
 		}
 		return intVal("0")
+	case "spawnedCount":
+		var n string
+		switch x.Args[0].Op {
+		case "ident", "str":
+			n = x.Args[0].Name
+		default:
+			efail("spawnedCount() needs a function name")
+		}
+		for k, g := range st.ghost {
+			if strings.HasPrefix(k, "spawned:") && simpleName(strings.TrimPrefix(k, "spawned:")) == n {
+				return intVal(g)
+			}
+		}
+		return intVal("0")
 	case "spawned":
 		if st.spawned {
 			return boolVal("true")
 		}
 		return boolVal("false")
+	case "chancap":
+		a := env.eval(x.Args[0])
+		e.smt.Declare("chancap", []string{SU}, SInt)
+		return intVal(mkApp("chancap", a.term()))
 	case "hashable":
 		a := env.eval(x.Args[0])
 		return boolVal(mkApp("hashable", mkApp("typeof", a.term())))
@@ -709,7 +728,25 @@ func (env *Env) call(x *Expr) Val {
 		return boolVal("false")
 	case "closed":
 		a := env.eval(x.Args[0])
-		return boolVal(e.chanClosed(st, a.term()))
+		// the class of the channel follows the shape of the expression: a struct field or a variable
+		cls := "?"
+		switch y := x.Args[0]; y.Op {
+		case "field":
+			if b, err := env.tryEval(y.Args[0]); err == nil && b.T != nil {
+				bt := b.T
+				if p, ok := bt.Underlying().(*types.Pointer); ok {
+					bt = p.Elem()
+				}
+				cls = typeKey(bt) + "." + y.Name
+			}
+		case "ident":
+			cls = "var:" + y.Name
+		case "sitevar":
+			if c, ok := env.site["$chanclass"]; ok && len(c.L) == 1 {
+				cls = e.strVals[c.L[0]]
+			}
+		}
+		return boolVal(e.chanClosed(st, a.term(), cls))
 	case "ite":
 		c := env.eval(x.Args[0])
 		a := env.eval(x.Args[1])
@@ -760,6 +797,36 @@ func (env *Env) call(x *Expr) Val {
 			return boolVal("true")
 		}
 		return boolVal("false")
+	case "visited":
+		// visited(n, k): key k has already been yielded by the n-th range-over-map loop of the current function
+		if len(x.Args) != 2 || x.Args[0].Op != "num" {
+			efail("visited(n, key)")
+		}
+		k := env.eval(x.Args[1])
+		fn := env.fr
+		for fn != nil && fn.parent != nil {
+			fn = fn.parent
+		}
+		if env.fr == nil {
+			efail("visited() outside a function")
+		}
+		var names []string
+		suffix := "!" + sanitize(env.fr.fn.Name())
+		for n := range e.heapSorts {
+			if strings.HasPrefix(n, "rangevisited!") && strings.HasSuffix(n, suffix) {
+				names = append(names, n)
+			}
+		}
+		sort.Slice(names, func(i, j int) bool {
+			return rangeOrd(names[i]) < rangeOrd(names[j])
+		})
+		var idx int
+		fmt.Sscanf(x.Args[0].Name, "%d", &idx)
+		if idx < 1 || idx > len(names) {
+			efail("visited(%d, ..): function has %d range-over-map loops seen so far", idx, len(names))
+		}
+		arr := e.heapArr(st, names[idx-1], e.heapSorts[names[idx-1]])
+		return boolVal(mkSelect(arr, k.term()))
 	case "nondetBool":
 		return boolVal(e.smt.Fresh("nondet", SBool))
 	case "nondetInt":
@@ -889,4 +956,31 @@ func (env *Env) locOf(x *Expr) *Loc {
 		}
 	}
 	return nil
+}
+
+// rangeOrd extracts the SSA register number of the range instruction from a visited-array name.
+func rangeOrd(name string) int {
+	parts := strings.Split(name, "!")
+	for _, p := range parts {
+		if strings.HasPrefix(p, "t") {
+			var n int
+			if _, err := fmt.Sscanf(p, "t%d", &n); err == nil {
+				return n
+			}
+		}
+	}
+	return 0
+}
+
+func (env *Env) tryEval(x *Expr) (v Val, err error) {
+	defer func() {
+		if r := recover(); r != nil {
+			if ee, ok := r.(evalErr); ok {
+				err = fmt.Errorf("%s", ee.msg)
+				return
+			}
+			panic(r)
+		}
+	}()
+	return env.eval(x), nil
 }
